@@ -11,10 +11,18 @@ fn run(r: &str, acc: &[String], out: &mut Out) {
     let refs: Vec<&str> = acc.iter().map(|s| s.as_str()).collect();
     // a panic of the code under test is data, not a harness failure
     let res = crate::util::quiet_catch(|| did_you_mean(r, &refs)).unwrap_or_else(|m| format!("<panic: {m}>"));
+    // the property fixes which string is named, not the wording around it: the named string is what stands between the outermost
+    // back-quotes (the pinned wording is "did you mean `X`? "), or the whole trimmed text when there are none
+    let named = match (res.find('`'), res.rfind('`')) {
+        (Some(a), Some(b)) if a < b => res[a + 1..b].to_string(),
+        _ => res.trim().to_string(),
+    };
     out.emit(&json!({
         "e": "reset",
         "inp": {"r": sj(r), "acc": acc.iter().map(|s| sj(s)).collect::<Vec<_>>()},
         "out": res,
+        "empty": res.trim().is_empty(),
+        "named": named,
     }));
 }
 
